@@ -78,6 +78,40 @@ Proof.
 Qed.
 Print Assumptions C01_empty_payload.
 
+(* Histories — what the judge of the correspondence evaluates.  A user of netmc.Writer may Write, change the
+   threshold, enable encryption and Flush in any order; frames still sitting in the write buffer when the
+   configuration changes are delivered intact in the form they had when written (Flush is not even visible on
+   the wire).  For every such history whose written payloads meet the round-trip premises under the threshold in
+   force at their write (ops_ok), from any starting threshold t and cipher state reg, and every chunking of the
+   wire: a reader that makes the same changes after the same packets gets back exactly the written payloads, in
+   order, and then waits. *)
+Theorem C01_history_roundtrip :
+  forall (deflate : Z -> bytes -> bytes) (inflate : bytes -> zres) (lazy_close_ok : bytes -> N -> bool) (E : bytes -> bytes),
+  (forall l p, inflate (deflate l p) = mkz p true) ->
+  forall (lvl : Z) (d : dir) (ops : list wop) (t : Z) (reg : option bytes) (chunks : list bytes),
+  ops_ok deflate lvl t d ops = true ->
+  concat chunks = wire_ops deflate E lvl t reg ops ->
+  read_ops inflate lazy_close_ok E d t (mkrd chunks reg) ops = (written ops, TNeedMore).
+Proof.
+  intros deflate inflate lz E H lvl d ops t reg chunks Hok Hwire.
+  exact (history_roundtrip deflate inflate lz E H lvl d ops t (mkrd chunks reg) Hok Hwire).
+Qed.
+Print Assumptions C01_history_roundtrip.
+
+(* Non-vacuity for histories: two writes before the threshold is set, a third before encryption is enabled, none
+   of them flushed before the changes, a threshold change after encryption; the premise holds, the chunked wire
+   (3, 0, 9, rest) is read back as the five written payloads, the first two frames are on the wire in plaintext
+   and the wire differs from the same history without encryption. *)
+Example C01_history_premises_satisfiable :
+  ops_ok id_deflate 6 (-1) ClientBound ex_history = true /\
+  (let w := wire_ops id_deflate toy_E 6 (-1) None ex_history in
+   read_ops id_inflate no_lazy toy_E ClientBound (-1) (mkrd [firstn 3 w; []; firstn 9 (skipn 3 w); skipn 12 w] None) ex_history
+     = (written ex_history, TNeedMore)
+   /\ written ex_history = [[1; 2; 3]; [5]; [127; 0; 0; 0; 0]; [9; 9; 9]; [4; 4]]
+   /\ firstn 6 w = [3; 1; 2; 3; 1; 5]
+   /\ w <> wire_ops id_deflate toy_E 6 (-1) None (filter (fun o => match o with WEnc _ => false | _ => true end) ex_history)).
+Proof. exact ex_history_computes. Qed.
+
 (* Non-vacuity: the premises are met by a concrete instance (stored-mode stand-in for zlib, a toy block
    function), and the same session evaluates to the payloads: encrypted, compressed from 2 bytes on,
    delivered as chunks of 1, 0, 5 and the remaining bytes; the wire differs from the plaintext frames. *)
